@@ -112,7 +112,7 @@ PROPS = {
                    "Base messages are built with signMsg rather than harvested from live runs; the decide-payload clause is covered by C01's cluster harness.",
         runs={
             "quick": [dict(test="TestC05Handle", checks=6000, shards=4)],
-            "thorough": [dict(test="TestC05Handle", checks=150000, shards=16, timeout=3000)],
+            "thorough": [dict(test="TestC05Handle", checks=150000, shards=10, timeout=3000), dict(test="FuzzC05Handle", mode="fuzz", fuzztime="300s", parallel=6, timeout=900)],
         },
     ),
     "C13": dict(
@@ -177,11 +177,12 @@ PROPS = {
         level_text="Round trips through JSON, SSZ and the protobuf set converters for every core data type and fork version (content, signing root, signature, share index, clone equality and disjointness, deterministic bytes, order-independent consensus hash); "
                    "structurally mutated / truncated / spliced / type-confused / arbitrary encodings are pushed through decode and every later operation of the real receive and decide paths, where any panic is a crash of the process.",
         level_note="The receive and decide paths are exercised by calling the production functions in production order (decode, eth2 verifier, parsigdb, sigagg, aggsigdb, broadcaster re-encode; decode, dutydb.Store, Await*, re-encode) rather than through live components; "
-                   "native fuzzing only in the thorough tier.",
+                   "native coverage-guided fuzzing (FuzzC14Decode, byte level, corpus seeded with every valid encoding) only in the thorough tier; it cannot be pinned to VERIF_SEED, a crasher is saved as the replay file.",
         runs={
             "quick": [dict(test="TestC14RoundTrip", checks=500, shards=2), dict(test="TestC14Mutations", checks=1300, shards=5, shrinktime="10s"),
                       dict(test="TestC14Regression", mode="plain"), dict(test="TestC14ConsensusHashDeterministic", checks=400, bin="hash")],
-            "thorough": [dict(test="TestC14RoundTrip", checks=20000, shards=4, timeout=3000), dict(test="TestC14Mutations", checks=150000, shards=11, timeout=3000),
+            "thorough": [dict(test="TestC14RoundTrip", checks=20000, shards=4, timeout=3000), dict(test="TestC14Mutations", checks=150000, shards=8, timeout=3000),
+                         dict(test="FuzzC14Decode", mode="fuzz", fuzztime="300s", parallel=6, timeout=900),
                          dict(test="TestC14Regression", mode="plain"), dict(test="TestC14ConsensusHashDeterministic", checks=20000, bin="hash", timeout=3000)],
         },
     ),
